@@ -317,7 +317,7 @@ func (a *Real64) SetHessian(i, j int, v float64) {
 // Allocate memory for n variables and set the derivative
 // of the ith variable to 1 (initial value).
 func (a *Real64) SetVariable(i, n, order int) error {
-  if order > 2 {
+  if order < 0 || order > 2 {
     return fmt.Errorf("order `%d' not supported by this type", order)
   }
   a.Alloc(n, order)
